@@ -245,4 +245,4 @@ def st_case(ctx: Ctx):
     )
 
 
-PARTS = [Part("cases", check_case, strategy=st_case, quick=4000, thorough=120000)]
+PARTS = [Part("cases", check_case, strategy=st_case, quick=16000, thorough=360000)]
